@@ -116,6 +116,7 @@ func checkC02(w *World, r *Report) {
 	ruleSyncArm(w, r, "C02")
 	ruleFormatExchange(w, r, "C02")
 	ruleInitChannel(w, r, "C02")
+	ruleSyncAPI(w, r, "C02")
 	ruleDecorExchange(w, r, "C02")
 	ruleDecorAlwaysCalled(w, r, "C02")
 	ruleTriggerCancels(w, r, "C02")
